@@ -32,6 +32,7 @@ ASSUMPTIONS = ['well-formed topologies: every port is mentioned; a port mapped t
 def gen(r, tier, i):
     case = topo.gen_case(r, maxports=4 if tier == 'quick' else 5)
     case['run_twice'] = r.random() < 0.3
+    case['share_schema'] = r.random() < 0.5
     return case
 
 
@@ -45,6 +46,8 @@ def make_probe(step=False):
             self.sent = []
 
         def ports_schema(self):
+            if self.parameters.get('share_schema'):
+                return self.parameters['schema']       # the same object on every call
             return copy.deepcopy(self.parameters['schema'])
 
         def next_update(self, timestep, states):
@@ -86,7 +89,9 @@ def run(spec):
     ppath = tuple(spec['ppath'])
     init = topo.init_tree(spec)
     Probe = make_probe()
-    probe = Probe({'schema': schema, 'plan': [], 'timestep': 1.0})
+    schema_before = copy.deepcopy(schema)
+    tp_before = copy.deepcopy(tp)
+    probe = Probe({'schema': schema, 'plan': [], 'timestep': 1.0, 'share_schema': bool(spec.get('share_schema'))})
     osch, otop = topo.owner_parts(spec)
     owner = Probe({'schema': osch, 'plan': [], 'timestep': 1.0})
     procs = nest({ppath: probe})
@@ -166,6 +171,9 @@ def run(spec):
         V.check('no_other_node_changes', not any(tuple(k.split('/')) not in touched for k in wrong),
                 lambda: ('a node outside the expected set changed (expected, actual)',
                          {k: v for k, v in wrong.items() if tuple(k.split('/')) not in touched}))
+    # (not asserted - the property speaks about nodes, not about the objects handed in - but reported)
+    if not (tp == tp_before and probe.parameters['schema'] == schema_before):
+        stats['input_objects_modified'] = 1
     dotdot = '..' in repr(spec['topology'])
     remap = any(isinstance(t, dict) for t in spec['topology'].values())
     globc = any(k in ('glob', 'globdict') for k in spec['kinds']) and any(p[0][0].startswith('g') for p in spec['leaves'])
